@@ -876,7 +876,8 @@ Theorem construct_ok xs ys xd fd : valid_table xs ys ->
 Proof.
   intros (Hlen & HN & Hinc). split.
   - unfold construct. rewrite Hlen, Nat.eqb_refl. cbn [negb]. rewrite <- Hlen.
-    destruct (Nat.ltb_spec (length xs) 2); [lia|]. rewrite strictly_increasing_true by assumption. reflexivity.
+    destruct (Nat.ltb_spec (length xs) 2); [lia|]. cbv zeta.
+    rewrite strictly_increasing_true by (now apply scale_increasing). reflexivity.
   - repeat split; rewrite ?scale_length; auto. now apply scale_increasing.
 Qed.
 
@@ -1065,8 +1066,8 @@ Proof.
      construct ROps (scale ROps d l) (repeat (n0 ROps) (length l)) (nneg ROps (n1 ROps)) (nneg ROps (n1 ROps))
      = Ok (tab (scale ROps d l) (repeat 0 (length (scale ROps d l))))).
   { intros l d Hi Hl. unfold construct. rewrite repeat_length, scale_length, Nat.eqb_refl. cbn [negb].
-    destruct (Nat.ltb_spec (length l) 2); [lia|].
-    rewrite strictly_increasing_true by now apply scale_increasing. cbn [negb]. rewrite !Hm1. reflexivity. }
+    destruct (Nat.ltb_spec (length l) 2); [lia|]. cbv zeta. rewrite !Hm1.
+    rewrite strictly_increasing_true by now apply scale_increasing. cbn [negb]. reflexivity. }
   destruct (scale2_rows fd f (length ys) Hrow) as [L1 L2].
   split.
   - unfold construct2. rewrite Hfl, Nat.eqb_refl, forallb_rows by assumption. cbn [andb negb].
